@@ -45,6 +45,14 @@ theorem splitLF_length {p l r : Bytes} (h : splitLF p = some (l, r)) : r.length 
         simp at h; obtain ⟨_, rfl⟩ := h
         have := ih heq; simp; omega
 
+/-- `re.sub('\r?\n', '\r\n', text)`: the documented normalisation of line breaks. -/
+def normGo (prevCR : Bool) : Bytes → Bytes
+  | [] => []
+  | b :: r => if b == 10 then (if prevCR then [10] else [13, 10]) ++ normGo false r
+              else b :: normGo (b == 13) r
+
+def normCRLF (m : Bytes) : Bytes := normGo false m
+
 def hexDigit (n : Nat) : Char :=
   if n < 10 then Char.ofNat (48 + n) else Char.ofNat (87 + n)
 
